@@ -140,7 +140,7 @@ def expmv(f, v, t=1., tol=1e-12, ncv=10, hermitian=False, normalize=False, retur
         if happy:
             omega = 0
             tau_new, ncv_new = tau, ncv
-        elif m == ncv_max and omega > delta:
+        elif m >= ncv_max and omega > delta:  # (m > ncv_max if the initial ncv exceeds ncv_max; enlarging the space is not an option)
             tau_new, ncv_new = tau * (omega / gamma) ** (-1. / order), ncv_max
         else:
             tau_opt = tau * (omega / gamma) ** (-1. / order) if omega > 0 else t_out - t_now
